@@ -61,6 +61,10 @@ using std::endl;
 
 namespace PPL = Parma_Polyhedra_Library;
 
+#ifdef PPL_VERIF
+void (*PPL::verif_yield_hook)(int site) = nullptr;
+#endif
+
 // Pass this to getitimer().
 itimerval PPL::Watchdog::current_timer_status;
 
@@ -117,7 +121,9 @@ my_sigaction(int signum,
 void
 PPL::Watchdog::get_timer(Implementation::Watchdog::Time& time) {
   using namespace Implementation::Watchdog;
+  PPL_VERIF_WD_YIELD(30);
   my_getitimer(THE_TIMER, &current_timer_status);
+  PPL_VERIF_WD_YIELD(31);
   time = Time(current_timer_status.it_value.tv_sec,
               current_timer_status.it_value.tv_usec);
 }
@@ -127,17 +133,22 @@ PPL::Watchdog::set_timer(const Implementation::Watchdog::Time& time) {
   if (time.seconds() == 0 && time.microseconds() == 0) {
     throw std::runtime_error("PPL internal error");
   }
+  PPL_VERIF_WD_YIELD(40);
   last_time_requested = time;
+  PPL_VERIF_WD_YIELD(41);
   signal_once.it_value.tv_sec = time.seconds();
   signal_once.it_value.tv_usec = time.microseconds();
   my_setitimer(THE_TIMER, &signal_once, nullptr);
+  PPL_VERIF_WD_YIELD(42);
 }
 
 void
 PPL::Watchdog::stop_timer() {
+  PPL_VERIF_WD_YIELD(50);
   signal_once.it_value.tv_sec = 0;
   signal_once.it_value.tv_usec = 0;
   my_setitimer(THE_TIMER, &signal_once, nullptr);
+  PPL_VERIF_WD_YIELD(51);
 }
 
 void
@@ -180,27 +191,36 @@ PPL::Watchdog::new_watchdog_event(long csecs,
   assert(csecs > 0);
   WD_Pending_List::iterator position;
   const Time deadline(csecs);
+  PPL_VERIF_WD_YIELD(60);
   if (!alarm_clock_running) {
     position = pending.insert(deadline, handler, expired_flag);
+    PPL_VERIF_WD_YIELD(61);
     time_so_far = Time(0);
+    PPL_VERIF_WD_YIELD(62);
     set_timer(deadline);
+    PPL_VERIF_WD_YIELD(63);
     alarm_clock_running = true;
   }
   else {
     Time time_to_shoot;
     get_timer(time_to_shoot);
+    PPL_VERIF_WD_YIELD(64);
     Time elapsed_time(last_time_requested);
     elapsed_time -= time_to_shoot;
     Time current_time(time_so_far);
     current_time += elapsed_time;
     Time real_deadline(deadline);
     real_deadline += current_time;
+    PPL_VERIF_WD_YIELD(65);
     position = pending.insert(real_deadline, handler, expired_flag);
+    PPL_VERIF_WD_YIELD(66);
     if (deadline < time_to_shoot) {
       time_so_far = current_time;
+      PPL_VERIF_WD_YIELD(67);
       set_timer(deadline);
     }
   }
+  PPL_VERIF_WD_YIELD(68);
   return position;
 }
 
@@ -208,18 +228,22 @@ void
 PPL::Watchdog::remove_watchdog_event(WD_Pending_List::iterator position) {
   using namespace Implementation::Watchdog;
   assert(!pending.empty());
+  PPL_VERIF_WD_YIELD(70);
   if (position == pending.begin()) {
     WD_Pending_List::iterator next = position;
     ++next;
+    PPL_VERIF_WD_YIELD(71);
     if (next != pending.end()) {
       const Time first_deadline(position->deadline());
       Time next_deadline(next->deadline());
       if (first_deadline != next_deadline) {
         Time time_to_shoot;
         get_timer(time_to_shoot);
+        PPL_VERIF_WD_YIELD(72);
         Time elapsed_time(last_time_requested);
         elapsed_time -= time_to_shoot;
         time_so_far += elapsed_time;
+        PPL_VERIF_WD_YIELD(73);
         next_deadline -= first_deadline;
         time_to_shoot += next_deadline;
         set_timer(time_to_shoot);
@@ -227,10 +251,13 @@ PPL::Watchdog::remove_watchdog_event(WD_Pending_List::iterator position) {
     }
     else {
       stop_timer();
+      PPL_VERIF_WD_YIELD(74);
       alarm_clock_running = false;
     }
   }
+  PPL_VERIF_WD_YIELD(75);
   pending.erase(position);
+  PPL_VERIF_WD_YIELD(76);
 }
 
 PPL::Implementation::Watchdog::Time PPL::Watchdog::reschedule_time(1);
